@@ -30,12 +30,12 @@ Print Assumptions C12_complete_without_ttl.
 
 (* F20: the full completeness statement is false of the code: a short-TTL add shortens the tag set's life *)
 Theorem C12_tags_complete_refuted :
-  ok_tags KEYS [] h_F20 (run_tags REG KEYS empty h_F20) = false /\ excl_f20 REG KEYS empty h_F20 = true.
+  ok_tags KEYS [] (lift h_F20) (run_tags REG KEYS empty (lift h_F20)) = false /\ excl_f20 REG KEYS empty h_F20 = true.
 Proof. exact tags_complete_refuted. Qed.
 Print Assumptions C12_tags_complete_refuted.
 
 (* F21: precision fails for a tag that was never registered *)
 Theorem C12_tags_precise_refuted :
-  ok_tags KEYS [] h_F21 (run_tags REG KEYS empty h_F21) = false /\ excl_f21 REG KEYS [] h_F21 = true.
+  ok_tags KEYS [] (lift h_F21) (run_tags REG KEYS empty (lift h_F21)) = false /\ excl_f21 REG KEYS [] h_F21 = true.
 Proof. exact tags_precise_refuted. Qed.
 Print Assumptions C12_tags_precise_refuted.
